@@ -26,3 +26,97 @@ func shapedInput() string {
 	}
 	return s + verif.NondetString("tail", tailBound())
 }
+
+var elemNames = []string{"e0", "e1", "e2", "e3", "e4", "e5", "e6", "e7", "e8", "e9", "e10", "e11"}
+
+// structInput is the canonical base part (arbitrary value bytes) followed by
+// one '/'-separated element per decimal digit of the SHAPE parameter; the
+// digit is the element's length and every byte of an element is arbitrary
+// except '/'. With the separators at fixed places the parser's path structure
+// is fixed, so far longer optional parts are within reach than with the free
+// tail of shapedInput (e.g. SHAPE=55 covers ".../MAV:P/MAC:H" and every other
+// pair of 5-byte elements, well-formed or not).
+func structInput() string {
+	s := Header
+	for i := 0; i < nBase; i++ {
+		m := metrics[i]
+		v := verif.NondetBytes("v_"+m.abv, 1)
+		verif.Assume(v[0] != '/')
+		if i > 0 || Header == "CVSS:4.0" {
+			s += "/"
+		}
+		s += m.abv + ":" + v
+	}
+	shape := verif.Param("SHAPE", 55)
+	var lens [12]int
+	n := 0
+	for shape > 0 && n < 12 {
+		lens[n] = shape % 10
+		shape /= 10
+		n++
+	}
+	for j := n - 1; j >= 0; j-- {
+		e := verif.NondetBytes(elemNames[n-1-j], lens[j])
+		for k := 0; k < lens[j]; k++ {
+			verif.Assume(e[k] != '/')
+		}
+		s += "/" + e
+	}
+	return s
+}
+
+// baseInput is the canonical base part with arbitrary value bytes (no tail).
+func baseInput() string {
+	s := Header
+	for i := 0; i < nBase; i++ {
+		m := metrics[i]
+		v := verif.NondetBytes("v_"+m.abv, 1)
+		verif.Assume(v[0] != '/')
+		if i > 0 || Header == "CVSS:4.0" {
+			s += "/"
+		}
+		s += m.abv + ":" + v
+	}
+	return s
+}
+
+// mutChunkN() positions are handled per run of a *Mutated harness.
+func mutChunkN() int { return verif.Param("CHUNK", 16) }
+
+// mutated returns the base part with one edit at byte position p: MUT=0 the
+// byte is replaced by the arbitrary byte b, MUT=1 b is inserted before it,
+// MUT=2 the byte is deleted. ok is false when the edit does not apply.
+func mutated(base, b string, kind, p int) (string, bool) {
+	switch kind {
+	case 0:
+		if p >= len(base) {
+			return "", false
+		}
+		return base[:p] + b + base[p+1:], true
+	case 1:
+		if p > len(base) {
+			return "", false
+		}
+		return base[:p] + b + base[p:], true
+	}
+	if p >= len(base) {
+		return "", false
+	}
+	return base[:p] + base[p+1:], true
+}
+
+// shapedInputP is shapedInput over a second, independent set of arbitrary
+// bytes (names prefixed with p).
+func shapedInputP(p string) string {
+	s := Header
+	for i := 0; i < nBase; i++ {
+		m := metrics[i]
+		v := verif.NondetBytes(p+"v_"+m.abv, 1)
+		verif.Assume(v[0] != '/')
+		if i > 0 || Header == "CVSS:4.0" {
+			s += "/"
+		}
+		s += m.abv + ":" + v
+	}
+	return s + verif.NondetString(p+"tail", tailBound())
+}
